@@ -390,7 +390,7 @@ func (e *Engine) builtinAppend(st *State, s, t Val, resT types.Type) Val {
 		tArr = func(i string) string { return sel(strArr(t.S), i) }
 	} else {
 		tlen = slLen(t.S)
-		tArr = func(i string) string { return sel(sel(h, slRef(t.S)), add(slOff(t.S), i)) }
+		tArr = func(i string) string { return sel(sel(h, slRef(t.S)), ix(slOff(t.S), i)) }
 	}
 	_ = tget
 	if tlen == "0" {
@@ -407,20 +407,23 @@ func (e *Engine) builtinAppend(st *State, s, t Val, resT types.Type) Val {
 	// new contents of the row that receives the elements
 	row := st.freshConst("approw", fmt.Sprintf("(Array Int %s)", es))
 	oldrow := sel(h, sref)
-	// in place: row = oldrow with [off+len, off+len+tlen) overwritten; grown: row[i] = old[off+i] for i<len, then t
-	st.assume(fmt.Sprintf("(forall ((i Int)) (! (= (select %s i) (ite %s (ite (and (<= 0 i) (< i %s)) (select %s (+ %s i)) (ite (and (<= %s i) (< i %s)) %s (select %s i))) (ite (and (<= (+ %s %s) i) (< i (+ %s %s))) %s (select %s i)))) :pattern ((select %s i))))",
-		row, grow,
-		slen, oldrow, soff, slen, nlen, tArr("(- i "+slen+")"), row,
-		soff, slen, soff, nlen, tArr("(- (- i "+soff+") "+slen+")"), oldrow, row))
+	roff := st.freshConst("appoff", "Int")
+	st.assume(eq(roff, ite(grow, "0", soff)))
+	// relative view: result[k] for 0 <= k < len+n is the old element or the appended one
+	st.assume(fmt.Sprintf("(forall ((k Int)) (! (=> (and (<= 0 k) (< k %s)) (= (select %s %s) (ite (< k %s) (select %s %s) %s))) :pattern ((select %s %s))))",
+		nlen, row, ix(roff, "k"), slen, oldrow, ix(soff, "k"), tArr("(- k "+slen+")"), row, ix(roff, "k")))
+	// in place: everything outside the appended window keeps its value
+	st.assume(fmt.Sprintf("(=> (not %s) (forall ((i Int)) (! (=> (not (and (<= (+ %s %s) i) (< i (+ %s %s)))) (= (select %s i) (select %s i))) :pattern ((select %s i)))))",
+		grow, soff, slen, soff, nlen, row, oldrow, row))
 	rref := ite(grow, newref, sref)
 	if tlen == "1" && es == "Int" {
 		// the element set grows by exactly the appended element (valid fact about append; saves an induction)
 		reg.declareFun("elems!Int", []string{"(Array Int Int)", "Int", "Int"}, "(Array Int Bool)")
 		e.assumptions["append(s, x): elems(result) = elems(s) + {x} (trusted lemma about the ghost element set)"] = true
-		st.assume(fmt.Sprintf("(= (elems!Int %s %s %s) (store (elems!Int %s %s %s) %s true))", row, ite(grow, "0", soff), nlen, oldrow, soff, slen, tArr("0")))
+		st.assume(fmt.Sprintf("(= (elems!Int %s %s %s) (store (elems!Int %s %s %s) %s true))", row, roff, nlen, oldrow, soff, slen, tArr("0")))
 	}
 	st.setHeap(hn, hs, store(h, rref, row))
-	res := mkSlice(rref, ite(grow, "0", soff), nlen, ite(grow, ncap, scap))
+	res := mkSlice(rref, roff, nlen, ite(grow, ncap, scap))
 	r := st.freshConst("appres", "Slice")
 	st.assume(eq(r, res))
 	return Val{S: r, T: resT}
@@ -438,15 +441,17 @@ func (e *Engine) builtinCopy(st *State, dst, src Val) Val {
 		sAt = func(i string) string { return sel(strArr(src.S), i) }
 	} else {
 		slen = slLen(src.S)
-		sAt = func(i string) string { return sel(sel(h, slRef(src.S)), add(slOff(src.S), i)) }
+		sAt = func(i string) string { return sel(sel(h, slRef(src.S)), ix(slOff(src.S), i)) }
 	}
 	n := st.freshConst("copyn", "Int")
 	st.assume(eq(n, ite(fmt.Sprintf("(< %s %s)", slLen(dst.S), slen), slLen(dst.S), slen)))
 	row := st.freshConst("copyrow", fmt.Sprintf("(Array Int %s)", sortOf(et)))
 	oldrow := sel(h, slRef(dst.S))
 	off := slOff(dst.S)
-	st.assume(fmt.Sprintf("(forall ((i Int)) (! (= (select %s i) (ite (and (<= %s i) (< i (+ %s %s))) %s (select %s i))) :pattern ((select %s i))))",
-		row, off, off, n, sAt("(- i "+off+")"), oldrow, row))
+	st.assume(fmt.Sprintf("(forall ((k Int)) (! (=> (and (<= 0 k) (< k %s)) (= (select %s %s) %s)) :pattern ((select %s %s))))",
+		n, row, ix(off, "k"), sAt("k"), row, ix(off, "k")))
+	st.assume(fmt.Sprintf("(forall ((i Int)) (! (=> (not (and (<= %s i) (< i (+ %s %s)))) (= (select %s i) (select %s i))) :pattern ((select %s i))))",
+		off, off, n, row, oldrow, row))
 	st.setHeap(hn, hs, store(h, slRef(dst.S), row))
 	return intVal(n)
 }
@@ -555,8 +560,18 @@ func (e *Engine) havocModifies(st *State, env *Env, ct *Contract) {
 func (e *Engine) havocLocation(st *State, env *Env, m string) {
 	m = strings.TrimSpace(m)
 	if strings.HasPrefix(m, "heap:") {
-		st.heap(m[5:], st.hsort[m[5:]])
-		st.havocHeap(m[5:])
+		n := m[5:]
+		if strings.HasPrefix(n, "L!alg!") {
+			declareAlgebra()
+			algHeap(n[6:])
+		}
+		if n == "L!hash!data" || n == "L!hash!key" {
+			heapSortOf[n] = "(Array Int Str)"
+		}
+		if srt, ok := heapSortOf[n]; ok {
+			st.heap(n, srt)
+		}
+		st.havocHeap(n)
 		return
 	}
 	if strings.HasPrefix(m, "guarded(") && strings.HasSuffix(m, ")") {
